@@ -5,7 +5,10 @@ import (
 	"encoding/json"
 	"errors"
 	"fmt"
+	"os"
+	"path/filepath"
 	"sort"
+	"time"
 	"strconv"
 	"strings"
 
@@ -110,7 +113,76 @@ func c15Same(a, b c15Obs) bool {
 	return true
 }
 
+// c15FilesAndChain: the library's own loaders on real files -- a FileSystemLoader in front of an ArrayLoader, registered one
+// after the other and behind one ChainLoader. Every call that re-reads the loaders takes the first loader that has the
+// name NOW: the file's loader while the file exists, the next one once it is removed, the file's again when it is back.
+func c15FilesAndChain(cases string, res *Result) {
+	root := filepath.Join(filepath.Dir(cases), "fsroot")
+	defer os.RemoveAll(root)
+	for _, chain := range []bool{false, true} {
+		for _, mode := range []string{"cache-off", "auto-reload"} {
+			if chain && mode == "auto-reload" {
+				continue // a ChainLoader reports no modification times: a cached entry rightly stays (the property speaks of timestamp-aware loaders)
+			}
+			os.RemoveAll(root)
+			os.MkdirAll(root, 0o755)
+			file := filepath.Join(root, "t.twig")
+			write := func(src string, at int64) {
+				os.WriteFile(file, []byte(src), 0o644)
+				t := time.Unix(1700000000+at, 0)
+				os.Chtimes(file, t, t)
+			}
+			write("from-file-1", 0)
+			fs := twig.NewFileSystemLoader([]string{root})
+			arr := twig.NewArrayLoader(map[string]string{"t.twig": "from-array", "only-array.twig": "A"})
+			eng := twig.New()
+			if chain {
+				eng.RegisterLoader(twig.NewChainLoader([]twig.Loader{fs, arr}))
+			} else {
+				eng.RegisterLoader(fs)
+				eng.RegisterLoader(arr)
+			}
+			if mode == "cache-off" {
+				eng.SetCache(false)
+			} else {
+				eng.SetAutoReload(true)
+			}
+			c := Case{"stream": "files-and-chain", "chain": chain, "mode": mode}
+			res.Hist["stream:files-and-chain"]++
+			step := func(what, want string) bool {
+				res.Evaluations++
+				got, err := eng.Render("t.twig", nil)
+				if err != nil {
+					got = "error: " + err.Error()
+				}
+				if got != want {
+					res.add(Finding{Kind: "oracle", Where: "files-and-chain: " + what, Case: c, Expected: want, Observed: got,
+						Detail: "FileSystemLoader on " + root + " in front of an ArrayLoader that has the name too; history: file present, removed, back with new text, changed"})
+					return false
+				}
+				return true
+			}
+			if !step("the file exists", "from-file-1") || !step("again", "from-file-1") {
+				continue
+			}
+			os.Remove(file)
+			if !step("the file is removed: the next loader has the name", "from-array") || !step("again", "from-array") {
+				continue
+			}
+			if mode == "cache-off" {
+				write("from-file-2", 20)
+				if !step("the file is back", "from-file-2") {
+					continue
+				}
+				write("from-file-3", 40)
+				step("the file changed", "from-file-3")
+			}
+		}
+	}
+}
+
 func runC15(cases string, res *Result) {
+	c15FilesAndChain(cases, res)
 	// the two loader kinds must be what the engine distinguishes
 	if _, ok := twig.Loader(&c15TSLoader{}).(twig.TimestampAwareLoader); !ok {
 		panic("c15TSLoader does not implement twig.TimestampAwareLoader")
